@@ -58,7 +58,7 @@ class C02(Check):
                    'samples: media indices are read from the library objects (C18 covers them)']
 
     def budget(self, tier):
-        return (120, 8) if tier == 'quick' else (3000, 16)
+        return (300, 8) if tier == 'quick' else (3000, 16)
 
     def strategy(self, tier):
         return st.fixed_dictionaries(dict(kind=st.just('spec'), spec=GL.lens_spec('real'), rays=ray_bundle(),
@@ -95,7 +95,7 @@ class C02(Check):
                 return
             raise
         rec = RT.records(o)
-        stt = RT.check_trace(out, spec, rec, w)
+        stt = RT.check_trace(out, spec, rec, w, parabola_kf='C02-parabola-cancellation')
         if stt['tir']:
             out.cls('tir_seen')
         if stt['miss']:
@@ -129,7 +129,7 @@ class C02(Check):
                 ns = [float(np.ravel(s.material_post.n(w))[0]) for s in S]
                 o.trace_generic(float(Hx), float(Hy), Px.copy(), Py.copy(), w)
                 rec = RT.records(o)
-                stt = RT.check_trace(out, spec, rec, w, ns=ns)
+                stt = RT.check_trace(out, spec, rec, w, ns=ns, parabola_kf='C02-parabola-cancellation')
                 hits = max(hits, stt['powered_hits'])
         out.nt(hits >= 1)
 
